@@ -241,7 +241,8 @@ class NullChecker:
         return False
 
     def check_schnorr(self, sig, pub, sigversion, interp):
-        return (False, None)
+        # without a transaction the check simply fails; which script error is reported is not prescribed
+        return (False, 'ANY')
 
     def check_locktime(self, n):
         return False
